@@ -83,6 +83,10 @@ static u32 piece[CALLS];                 /* arbitrary size of each piece; 0 = en
 static int inner_eof;
 static uint8_t *last_dest; static size_t last_n, last_r; static u64 last_pos; static unsigned reads_in_call;
 static LHADecoder inner_token;
+static int in_init;
+#ifndef HSPLIT
+#define HSPLIT 0      /* 0: envelope arrives in one piece; 1: as 100 + 28 bytes; 2: the stream ends after 100 bytes */
+#endif
 size_t lha_decoder_read(LHADecoder *dec, uint8_t *buf, size_t buf_len)
 {
 	size_t r, i;
@@ -93,8 +97,9 @@ size_t lha_decoder_read(LHADecoder *dec, uint8_t *buf, size_t buf_len)
 	if (r == 0) { inner_eof = 1; return 0; }
 	if (reads_in_call == 0) { last_dest = buf; last_n = buf_len; last_r = r; last_pos = inner_pos; }
 	++reads_in_call;
-	/* only the envelope bytes carry data in this model; later bytes are identified by their position */
-	for (i = 0; i < r && inner_pos + i < 128; ++i) buf[i] = hdr_bytes[inner_pos + i];
+	/* only the envelope bytes carry data in this model (delivered during init, at concrete positions - see
+	 * HSPLIT); later bytes are identified by their position */
+	if (in_init) for (i = 0; i < r; ++i) buf[i] = hdr_bytes[inner_pos + i];
 	inner_pos += r;
 	return r;
 }
@@ -117,18 +122,24 @@ void harness_strip(void)
 	for (i = 0; i < 128; ++i) hdr_bytes[i] = data[i];
 	ASSUME((u64) be32(hdr_bytes + 0x53) + (u64) be32(hdr_bytes + 0x57) + 255u <= 0xffffffffu);
 	for (i = 0; i < CALLS; ++i) piece[i] = pieces[i];
-	/* the envelope arrives in one piece, in two pieces (100 + 28), or the stream ends inside it */
-	if (hsplit % 3 == 0) ASSUME(piece[0] >= 128);
-	else if (hsplit % 3 == 1) ASSUME(piece[0] == 100 && piece[1] >= 28);
-	else ASSUME(piece[0] == 100 && piece[1] == 0);
+#if HSPLIT == 0
+	piece[0] = 128;
+#elif HSPLIT == 1
+	piece[0] = 100; piece[1] = 28;
+#else
+	piece[0] = 100; piece[1] = 0;
+#endif
+	(void) hsplit;
 	hdr.filename = nm; hdr.length = (size_t) mlen; hdr.timestamp = stamp;
 	closure.decoder = &inner_token; closure.header = &hdr;
 
+	in_init = 1;
 	ok = macbinary_decoder_init(&mb, NULL, &closure);
+	in_init = 0;
 	if (mlen < 128) {
 		CHECK(ok && inner_pos == 0 && mb.mb_header_bytes == 0 && mb.stream_remaining == mlen, "C06: members shorter than an envelope are passed through untouched");
 		is_mac = 0; expect_pos = 0; remaining = mlen;
-	} else if (hsplit % 3 == 2) {
+	} else if (HSPLIT == 2) {
 		CHECK(!ok, "C07: a stream that ends inside the first 128 bytes of a >= 128 byte member is a failure");
 		WITNESS("stream ends inside the envelope");
 		return;
